@@ -54,6 +54,7 @@ from __future__ import annotations
 
 import ast
 import itertools
+import os
 
 import z3
 
@@ -219,6 +220,8 @@ class RWTask:
         def harness(path):
             loops = []
             hooks = SG.install({"instantiate": self.instantiate or CS.abstract_noise_instantiate, "loop": live_list_loop(loops)})
+            if os.environ.get("VERIF_NO_LIVE_LIST_HOOK"):  # diagnosis only: rely on the engine's own `for` semantics
+                del hooks["loop"]
             I = Interp(path, C, INLINE, hooks)
             I.task_name = self.qual
             f = FuncRef(m.name, node, self.qual, I.get_class(m.name, cls.name))
